@@ -1,6 +1,8 @@
 import EdzedModel.Basic.Val
 import EdzedModel.Counter
 import EdzedModel.Drv.Counter
+import EdzedModel.Drv.OutputAsync
 import EdzedModel.Drv.Simulate
 import EdzedModel.Gen.Constants
+import EdzedModel.OutputAsync
 import EdzedModel.Simulate
